@@ -152,6 +152,21 @@ impl StatelessTransportState {
     }
 }
 
+#[cfg(feature = "verif-hooks")]
+impl StatelessTransportState {
+    /// Verification hook (read-only): a dump of the private transport state, used by external
+    /// model-checking harnesses as a state de-duplication key only.
+    #[must_use]
+    pub fn verif_fingerprint(&self) -> crate::utils::VerifDump {
+        let mut out = crate::utils::VerifDump::new();
+        self.cipherstates.0.verif_dump(&mut out);
+        self.cipherstates.1.verif_dump(&mut out);
+        out.push(u8::from(self.initiator));
+        out.push(u8::from(self.rs.is_on()));
+        out
+    }
+}
+
 impl fmt::Debug for StatelessTransportState {
     fn fmt(&self, fmt: &mut fmt::Formatter<'_>) -> fmt::Result {
         fmt.debug_struct("StatelessTransportState").finish()
